@@ -1020,8 +1020,11 @@ func hasAnyPrefixes(s []byte, listOfPrefixes [][]byte) bool {
 }
 
 func containsPrefix(table *table.Table, prefix []byte) bool {
-	smallValue := table.Smallest()
-	largeValue := table.Biggest()
+	// Compare user keys. With the timestamp suffix attached, a smallest key that is a proper
+	// prefix of `prefix` ("b" vs "ba") sorts after it, because the first timestamp byte is 0xff,
+	// and the table was wrongly reported as not containing the prefix.
+	smallValue := y.ParseKey(table.Smallest())
+	largeValue := y.ParseKey(table.Biggest())
 	if bytes.HasPrefix(smallValue, prefix) {
 		return true
 	}
